@@ -351,7 +351,9 @@ def oracle(case, out):
 
 
 def nontrivial(case, out):
-    return len(case["prog"]) >= 1 and len(set(case.get("sched") or [])) >= 2
+    sched = case.get("sched") or []
+    switches = sum(1 for a, b in zip(sched, sched[1:]) if a != b)
+    return len(case["prog"]) >= 1 and len(set(sched)) >= 2 and switches >= 2
 
 
 def futures_out_of_order(case):
@@ -455,29 +457,31 @@ def random_config(rng, kind="clean"):
 
 def small_configs(quick):
     """(configuration, preemption bound) pairs explored exhaustively: every schedule with at most that many
-    preemptions is run on the real code and on the model"""
+    preemptions is run on the real code and on the model.  The bounds are chosen so that each configuration finishes
+    (sizes measured: a few hundred to ~15 000 schedules); what does not finish on a busy machine is reported separately
+    as truncated, never as exhaustive."""
     out = []
     prog = lambda n: [f"p{10 * (i + 1)}" for i in range(n)]  # noqa: E731
-    b_small = 2 if quick else 3
-    # one subscriber, 1-2 messages (3 in the thorough tier); two subscribers with one message
-    for nsub, nmsg in [(1, 1), (1, 2), (2, 1)] + ([] if quick else [(1, 3), (3, 1)]):
+    b1 = 2 if quick else 3          # one subscriber
+    b2 = 2                          # two subscribers, one message
+    for nsub, nmsg, b in [(1, 1, b1), (1, 2, b1), (2, 1, b2)] + ([] if quick else [(1, 3, 3)]):   # (3 subscribers explode: 29 000 schedules at bound 1; sampled instead)
         for cap in ([1, 2] if nmsg > 1 else [1]):
-            out.append((mk_case(cap, 0, "1" * nsub, prog(nmsg)), b_small))
+            out.append((mk_case(cap, 0, "1" * nsub, prog(nmsg)), b))
             for drive in sorted({"1" * nsub, "1" + "0" * (nsub - 1), "0" * (nsub - 1) + "1"}):
-                out.append((mk_case(cap, 1, drive, prog(nmsg)), b_small))
-    out.append((mk_case(2, 0, "1", ["1@p10", "0@p20"]), b_small))
+                out.append((mk_case(cap, 1, drive, prog(nmsg)), b))
+    out.append((mk_case(2, 0, "1", ["1@p10", "0@p20"]), b1))
     # partial reordering: the buffer holds {0, 2} while 1 is still missing (a gap above the lowest message)
-    out.append((mk_case(3, 0, "1", ["0@p10", "2@p20", "1@p30"]), b_small))
-    out.append((mk_case(None, 1, "1", prog(2)), b_small))
-    out.append((mk_case(1, 0, "1", ["f0:10", "p20"], [[0]]), b_small))
-    out.append((mk_case(1, 1, "1", ["f0:10"], [[0]]), b_small))
+    out.append((mk_case(3, 0, "1", ["0@p10", "2@p20", "1@p30"]), b1))
+    out.append((mk_case(None, 1, "1", prog(2)), b1))
+    out.append((mk_case(1, 0, "1", ["f0:10", "p20"], [[0]]), 2))
+    out.append((mk_case(1, 1, "1", ["f0:10"], [[0]]), 2))
     # futures completed out of order by concurrent workers: results must still come out in message order
-    out.append((mk_case(2, 0, "1", ["f0:10", "f1:20"], [[1, 0]]), b_small))
-    out.append((mk_case(2, 0, "1", ["f0:10", "f1:20"], [[1], [0]]), 1 if quick else 2))
-    out.append((mk_case(2, 1, "1", ["f0:10", "p20", "f1:30"], [[1], [0]]), 1 if quick else 2))
-    out.append((mk_case(1, 0, "1", prog(2), kills="u"), b_small))
-    out.append((mk_case(1, 1, "10", prog(1), kills="d"), 1 if quick else 2))
-    out.append((mk_case(1, 0, "1", ["p10", "x"]), b_small))
+    out.append((mk_case(2, 0, "1", ["f0:10", "f1:20"], [[1, 0]]), 2))
+    out.append((mk_case(2, 0, "1", ["f0:10", "f1:20"], [[1], [0]]), 1))
+    out.append((mk_case(2, 1, "1", ["f0:10", "p20", "f1:30"], [[1], [0]]), 1))
+    out.append((mk_case(1, 0, "1", prog(2), kills="u"), 2))
+    out.append((mk_case(1, 1, "10", prog(1), kills="d"), 1))
+    out.append((mk_case(1, 0, "1", ["p10", "x"]), b1))
     # two subscribers, two messages: bound 1 in the quick tier, bound 2 in the thorough one
     b22 = 1 if quick else 2
     out.append((mk_case(1, 1, "10", prog(2)), b22))
@@ -776,7 +780,7 @@ def div_small_configs(quick):
             (dict(cap=1, lazy=0, outs=two, prog=["f0:10+p20"], workers=[[0]], kills=[]), 1),
             (dict(cap=1, lazy=0, outs=two, prog=["p10+p20", "p11+p21"], workers=[], kills=[]), 2),
             (dict(cap=1, lazy=1, outs=two, prog=["p10+p20", "p11+p21"], workers=[], kills=[]), 2),
-            (dict(cap=2, lazy=1, outs=[["10", 0], ["1", 0]], prog=["p10+p20"], workers=[], kills=[]), 2),
+            (dict(cap=2, lazy=1, outs=[["10", 0], ["1", 0]], prog=["p10+p20"], workers=[], kills=[]), 1),   # > 30 000 schedules at bound 2
         ]
     return out
 
@@ -821,7 +825,7 @@ def pinned():
         os.sched_setaffinity(0, old)
 
 
-RULE = "non-trivial = at least one message and at least two distinct threads in the schedule; distinct = distinct (configuration, schedule)"
+RULE = "non-trivial = at least one message, at least two distinct threads and at least two context switches in the schedule; distinct = distinct (configuration, schedule)"
 
 
 def _correspond(ctx, name, cases, **kw):
@@ -835,22 +839,27 @@ def run(ctx):
     quick = not ctx.thorough
     ctx.note(f"stale-waiter rule of Mailbox._can_fetch read off the source: {gate_rule()} (L = compares with the lowest number, H = _has_msg)")
     # 1. systematic: every schedule with <= bound preemptions for the smallest configurations
-    limit = ctx.pick(4000, 20000)
-    sys_cases, trunc = [], []
+    limit = ctx.pick(4000, 30000)
+    sys_done, sys_part, trunc = [], [], []
     t0 = time.time()
-    deadline = t0 + ctx.pick(90, 600)      # a busy machine truncates the largest configurations instead of running for ever
+    deadline = t0 + ctx.pick(90, 900)      # a busy machine truncates the largest configurations instead of running for ever
     with pinned():
         for base, bound in small_configs(quick):
             cs, t = explore(base, bound, limit, deadline)
-            sys_cases += cs
             if t:
-                trunc.append(op_line(base))
+                sys_part += cs
+                trunc.append(f"{op_line(base)} (bound {bound}: stopped after {len(cs)} schedules)")
+            else:
+                sys_done += cs
     if trunc:
-        ctx.note(f"systematic exploration truncated (limit {limit} schedules per configuration / time budget) for {len(trunc)} configurations: "
-                 + "; ".join(trunc[:6]))
-    ctx.note(f"systematic: {len(sys_cases)} schedules of {len(small_configs(quick))} configurations "
-             f"(preemption bounds {sorted({b for _, b in small_configs(quick)})}), {time.time() - t0:.0f}s")
-    _correspond(ctx, "mailbox/systematic", sys_cases, exhaustive=not trunc)
+        ctx.note(f"systematic exploration NOT exhaustive for {len(trunc)} configurations (limit {limit} schedules / time budget), "
+                 "their schedules are reported under mailbox/systematic-truncated: " + "; ".join(trunc[:8]))
+    ctx.note(f"systematic: {len(sys_done)} schedules of {len(small_configs(quick)) - len(trunc)} configurations explored exhaustively "
+             f"up to their preemption bound {sorted({b for _, b in small_configs(quick)})}, {len(sys_part)} schedules of {len(trunc)} "
+             f"truncated configurations, {time.time() - t0:.0f}s")
+    _correspond(ctx, "mailbox/systematic", sys_done, exhaustive=True)
+    if sys_part:
+        _correspond(ctx, "mailbox/systematic-truncated", sys_part, exhaustive=False)
 
     # 2. random configurations x random schedules. The number of cases is the minimum below on a busy machine
     #    and grows up to the maximum while the time budget lasts (the sequence itself depends only on the seed).
@@ -876,24 +885,29 @@ def run(ctx):
     _correspond(ctx, "mailbox/malformed", batch("malformed", *ctx.pick((200, 600, 5), (2000, 4000, 50))))
 
     # 3. divide_outputs feeding several mailboxes (Model/Divider.lean, driver op c05.div)
-    div_rule = "non-trivial = at least one dict and at least two distinct threads in the schedule"
+    div_rule = "non-trivial = at least one dict, at least two distinct threads and at least two context switches in the schedule"
     dkw = dict(nontrivial=nontrivial, rule=div_rule, branch=div_branch, in_hyp=lambda c, o: div_classify(c) == "clean")
 
     def dcorr(name, cases, **kw):
         outs = {id(c): c.pop("_out") for c in cases}
         ctx.correspond(name, cases, lambda c: outs[id(c)], div_op_line, div_oracle, **dkw, **kw)
 
-    dsys, dtrunc = [], 0
+    dsys, dpart, dtrunc = [], [], []
     t2 = time.time()
-    ddl = t2 + ctx.pick(30, 300)
+    ddl = t2 + ctx.pick(30, 700)
     with pinned():
         for base, bound in div_small_configs(quick):
-            cs, t = div_explore(base, bound, ctx.pick(1500, 15000), ddl)
-            dsys += cs
-            dtrunc += int(t)
-    ctx.note(f"divide_outputs systematic: {len(dsys)} schedules of {len(div_small_configs(quick))} configurations, "
-             f"{dtrunc} truncated, {time.time() - t2:.0f}s")
-    dcorr("divide/systematic", dsys, exhaustive=(dtrunc == 0))
+            cs, t = div_explore(base, bound, ctx.pick(2500, 30000), ddl)
+            if t:
+                dpart += cs
+                dtrunc.append(f"{div_op_line(base)} (bound {bound}: stopped after {len(cs)})")
+            else:
+                dsys += cs
+    ctx.note(f"divide_outputs systematic: {len(dsys)} schedules of {len(div_small_configs(quick)) - len(dtrunc)} configurations exhaustively, "
+             f"{len(dpart)} schedules of {len(dtrunc)} truncated configurations {dtrunc[:4]}, {time.time() - t2:.0f}s")
+    dcorr("divide/systematic", dsys, exhaustive=True)
+    if dpart:
+        dcorr("divide/systematic-truncated", dpart, exhaustive=False)
 
     def dbatch(kind, n_min, n_max, budget):
         cases = []
